@@ -71,3 +71,47 @@ func (v *VerifPublisher) SubscriberIDs() []uint64 {
 	}
 	return ids
 }
+
+// ---- accessors for the engine "subscribe" (real DB.Subscribe) ----
+
+// VerifPubNextID returns publisher.nextID of the DB's publisher (read under its lock): it is
+// incremented by newSubscriber, inside the same critical section that adds the matches.
+func VerifPubNextID(db *DB) uint64 {
+	db.pub.Lock()
+	defer db.pub.Unlock()
+	return db.pub.nextID
+}
+
+// VerifPubBarrier acquires and releases the publisher lock: a publishUpdates call that had
+// started before has sent all its batches when this returns.
+func VerifPubBarrier(db *DB) {
+	db.pub.Lock()
+	db.pub.Unlock() //nolint:staticcheck
+}
+
+// VerifSubHandle is a copy of a registered subscriber record (channel and closer are shared).
+type VerifSubHandle struct{ s subscriber }
+
+// VerifSubHandleOf returns the handle of subscriber id, or nil.
+func VerifSubHandleOf(db *DB, id uint64) *VerifSubHandle {
+	db.pub.Lock()
+	defer db.pub.Unlock()
+	s, ok := db.pub.subscribers[id]
+	if !ok {
+		return nil
+	}
+	return &VerifSubHandle{s: s}
+}
+
+// QueueLen is len(sendCh).
+func (h *VerifSubHandle) QueueLen() int { return len(h.s.sendCh) }
+
+// CloserSignaled reports whether the subscriber's closer has been signalled (DB closing).
+func (h *VerifSubHandle) CloserSignaled() bool {
+	select {
+	case <-h.s.subCloser.HasBeenClosed():
+		return true
+	default:
+		return false
+	}
+}
